@@ -51,6 +51,14 @@ Next ==
        [] Ev.ev = "reset" ->
             /\ viol' = viol \cup NewViol
             /\ o' = O0 /\ applied' = 0 /\ k' = 0 /\ sum' = 0 /\ cancelled' = FALSE /\ idx' = Ev.idx
+       [] Ev.ev = "fsum" ->
+            \* a free-running round (no gates, real parallelism), observed once everything has settled:
+            \* the window read from the sender, the bytes it emitted, the credit the peer granted
+            /\ viol' = viol \cup NewViol
+            /\ o' = [win |-> Ev.win, tok |-> FALSE, spc |-> "ret", upc |-> "idle", nout |-> Ev.nout, lastlen |-> Ev.maxchunk,
+                     res |-> Ev.res, exact |-> TRUE]
+            /\ applied' = Ev.applied /\ sum' = Ev.emitted
+            /\ UNCHANGED <<k, cancelled, idx>>
        [] Ev.ev = "fs" ->
             /\ viol' = viol \cup NewViol
             /\ o' = [win |-> Ev.win, tok |-> Ev.tok, spc |-> Ev.spc, upc |-> Ev.upc, nout |-> Ev.nout, lastlen |-> Ev.lastlen,
